@@ -19,6 +19,9 @@ from dataclasses import dataclass, field, asdict
 VERIF = os.path.dirname(os.path.dirname(os.path.abspath(__file__)))
 PY = os.path.join(VERIF, '.venv', 'bin', 'python')
 REPLAY_PY = '/venv/bin/python'
+# Cond.timeout['thorough'] is the budget of the deepest run that was ever made of a cell; the registered thorough tier runs
+# each cell for this fraction of it (≈ 3 h for all properties on 16 cores).  VERIF_THOROUGH_SCALE=1 restores the full budgets.
+THOROUGH_SCALE = float(os.environ.get('VERIF_THOROUGH_SCALE', '0.5'))
 
 
 @dataclass
@@ -146,7 +149,7 @@ def run_conditions(module: str, conds: list[Cond], tier: str, jobs: int = 16, se
     cells = []
     for c in conds:
         n = c.parts.get(tier, 1)
-        t = c.timeout.get(tier, 60) * scale
+        t = c.timeout.get(tier, 60) * scale * (THOROUGH_SCALE if tier == 'thorough' else 1.0)
         for part in range(n):
             cells.append((c, part, n, False, t))
         if c.twin:
